@@ -59,6 +59,7 @@ shutil.copy(os.path.join(src, "patch.diff"), dst)
 shutil.copy(demofile, dst)
 res["demo"] = demo
 json.dump(res, open(os.path.join(dst, "meta.json"), "w"), indent=1)
-subprocess.run("git -C /repo worktree remove --force %s; rm -rf /verif/.work/alt-*" % wt, shell=True)
+import hashlib
+subprocess.run("git -C /repo worktree remove --force %s; rm -rf /verif/.work/alt-%s" % (wt, hashlib.sha1(os.path.abspath(wt).encode()).hexdigest()[:10]), shell=True)
 ok = res["demo_passes_without_patch"] and res["demo_fails_with_patch"] and green and res["patch_applies"]
 print(sid, "valid" if ok else "INVALID", {c: v["detected"] for c, v in res["checks"].items()}, [v["violations"][:1] for v in res["checks"].values()])
